@@ -3,7 +3,7 @@ import random
 from pathlib import Path
 
 from vlib import Check
-from checks.writer_common import writer_model, run_scenarios, writer_scenarios, exporter_scenarios, reuse_scenarios, pending_scenarios, failed_rotation_scenarios
+from checks.writer_common import writer_model, run_scenarios, writer_scenarios, exporter_scenarios, reuse_scenarios, pending_scenarios, failed_rotation_scenarios, refused_rename_scenarios
 
 
 def run(tier):
@@ -12,7 +12,7 @@ def run(tier):
                 "rename for named plain/compressed outputs incl. rotation onto an existing name; traces: each scenario (writers "
                 "directly and through the exporter; plain/gzip/xz; several rotations; rotation onto an existing name, onto the "
                 "name in use (a -> a) and back onto an earlier one (a -> b -> a); '.part' files left by a run that died; "
-                "compressed outputs closed while the compressor holds back tens of KiB; a final rotation that cannot succeed; destruction with and without buffered data) is first run to completion, then re-run in a child that is "
+                "compressed outputs closed while the compressor holds back tens of KiB; a final rotation that cannot succeed; a rename the environment refuses; destruction with and without buffered data) is first run to completion, then re-run in a child that is "
                 "killed immediately before its k-th write/writev/rename for EVERY k; TLC checks every post-crash directory; "
                 "distinct = crash points")
     chk.assumptions = ["TLC + CommunityModules", "write/writev/rename interposed in the driver executable (libc/libstdc++ "
@@ -44,6 +44,7 @@ def run(tier):
     scs += reuse_scenarios(rng, tier)
     scs += pending_scenarios(tier)
     scs += failed_rotation_scenarios(tier)
+    scs += refused_rename_scenarios(tier)
     # '.part' files left by an earlier run that died while producing the same names: the new outputs start afresh
     stale = [dict(s, id=s["id"] + 20000, prepart=[1, 2, 3]) for s in scs if s["id"] % 3 == 0]
     scs += stale
